@@ -2,9 +2,9 @@
 """Pretty-print C11 cases/traces: c11_decode.py CASES TRACES [index]"""
 import sys
 NP=3
-OPS=["Estab","ConnClosed","SubIn","SubOut","OpenFail","DialFail","HsIn","HsOut","Validate","Timer","CmdOpen","CmdClose","CmdForce","TaskDie","Release","KillChan","Gate","Notify","NotifyDie","SleepAll"]
+OPS=["Estab","ConnClosed","SubIn","SubOut","OpenFail","DialFail","HsIn","HsOut","Validate","Timer","CmdOpen","CmdClose","CmdForce","TaskDie","Release","KillChan","Gate","Notify","NotifyDie","SleepAll","GrabSink","SendSync","SendAsync","SinkSync","SinkAsync"]
 EV=["Validate","Opened","Closed","OpenFailure","Notif"]
-CALL=["dial","open_substream","force_close"]
+CALL=["dial","open_substream","force_close","ret","wire"]
 def st(v):
     t=v[0]
     if t==0: return "-"
